@@ -90,7 +90,7 @@ def run(ctx):
                 s['qgenes'] = rng.sample(range(1, 7), 6)
                 s['Q'] = [[rng.randint(0, 4) for _ in range(6)] for _ in s['cells']]
             scns.append(s)
-        results = campaign(ctx, scns, 'MapRun_Trace_c03')
+        results = campaign(ctx, scns, 'MapRun_Trace_c03', focus='C03')
         # raw counts incl. a cell without any count (constant profile: every correlation 0).  The votes are not
         # recomputed by TLC here (log2(CPM+1) of the counts is not an integer); records and contract are.
         raws = []
